@@ -117,7 +117,7 @@ impl Prop for C06 {
     }
     fn build(&self, ch: &mut Chooser, cx: &mut CaseCtx) -> C06Case {
         let thorough = cx.env.tier == Tier::Thorough;
-        let o = WsGenOpts { fail_chance: 5, max_patches: if thorough { 10 } else { 6 }, max_files: 8, strict_reject_dirs: true, alt_name_chance: 1, second_failure: true, ..Default::default() };
+        let o = WsGenOpts { fail_chance: 5, max_patches: if thorough { 10 } else { 6 }, max_files: 8, strict_reject_dirs: true, alt_name_chance: 1, second_failure: true, allow_hard_error: true, ..Default::default() };
         let ws = gen_ws(ch, cx, &o);
         let mut opts = gen_opts(ch, true);
         opts.threads = *ch.pick(&[2usize, 2, 3, 4, 8, 16]);
